@@ -21,13 +21,14 @@ META = {
         "ReusableBoxFuture: no &self method touches `boxed`; unsafe impl Send for ReusableBoxRecvFuture: the in-crate witness exists and has the expected "
         "shape. R20.6 reference cycles: stored wakers are removed on every update and on close (C02/R02.4, R02.5). R20.7 the owner counter wrapped in "
         "ManuallyDrop is taken only in SharedObservable's Drop, once per path, and released on every path. Soundness inside dependencies is not decided."),
-    "trusted_base": ["rustc borrow checker and drop elaboration", "soundness of std, imbl, tokio, smallvec, arrayvec, pin-project-lite, readlock"],
+    "trusted_base": ["rustc borrow checker and drop elaboration", "soundness of std, imbl, tokio, smallvec, arrayvec, pin-project-lite, readlock", "auto-trait table of engine/rules/autotrait.py (imbl::Vector<T>: Send/Sync need T: Send + Sync; tokio broadcast Receiver<M>: M: Send; Arc / Mutex / RwLock / Cell as documented by std)"],
     "assumptions": [],
     "not_decided": "soundness inside imbl / tokio / smallvec / arrayvec / pin-project-lite",
 }
 META["explanation"] += ' R02.1 (closed test and waker push in one critical section) is evaluated here as part of R20.6: a waker parked after close() is never drained and keeps a state -> waker -> task -> subscriber -> state cycle alive.'
 META["explanation"] += " R20.6 only the state's waker list may hold a Waker: no handle type (Subscriber, its lock-flavour states) has a field whose type contains std::task::Waker."
 META["explanation"] += ' Shared with C19: R19.9 (type ledger: only the counted handles own a strong state reference - a WeakObservable or a guard that owns one keeps the value alive and closes reference cycles) and R19.11 (no hidden handle moved into a returned future / closure).'
+META["explanation"] += " R20.5 marker-impl-bound (engine/rules/autotrait.py): for every `unsafe impl<T: ..> Send for X<T>` the markers T needs are computed from the types X stores (fields; for a type-erased reusable box the parameter types of the async fn whose future X puts into it) by structural recursion with a small trusted table for external containers, and must be among the impl's declared bounds (re-derives F8, repaired by 7b0ee1a); the Send witness must instantiate make_recv_future with the stored message type."
 
 RAW = (r"^std::mem::forget$|ManuallyDrop::<.*>::(new|take|drop|into_inner)$|Box::<.*>::(into_raw|from_raw|leak|into_non_null|from_non_null)$|"
        r"Arc::<.*>::(into_raw|from_raw|increment_strong_count|decrement_strong_count)$|Rc::<.*>::(into_raw|from_raw)$|Weak::<.*>::(into_raw|from_raw)$|"
@@ -63,7 +64,6 @@ AUDITED_UNSAFE = {
     ("eyeball_im", "block", "reusable_box::CallOnDrop::<O, F>::call"): (1, "R20.3"),
     ("eyeball_im", "block", "<reusable_box::CallOnDrop<O, F> as std::ops::Drop>::drop"): (1, "R20.3"),
     ("eyeball_im", "block", "<vector::subscriber::VectorSubscriberStream<T> as futures_core::Stream>::poll_next"): (1, "R20.4"),
-    ("eyeball_im", "impl", "<vector::subscriber::assert_make_future_send::IsSend as std::marker::Send>"): (1, "R20.5"),
     ("eyeball_im", "impl", "<vector::subscriber::ReusableBoxRecvFuture<T> as std::marker::Send>"): (1, "R20.5"),
 }
 
@@ -92,6 +92,11 @@ def run(ctx):
         from . import c19
         c19.r19_9(ctx)
         c19.r19_11(ctx)
+        # parked wakers are released by close(): an owner Drop that can skip the close (early return while panicking, a counter that
+        # never reaches zero) leaves the cycle state -> waker -> task -> subscriber -> state alive for ever
+        if not getattr(ctx, "_c03_in_c20", False):
+            ctx._c03_in_c20 = True
+            c03.run(ctx)
 
 
 def r20_1(ctx):
@@ -108,6 +113,10 @@ def r20_1(ctx):
         n += len(sps)
         where = "%s:%d" % (sps[0]["file"], sps[0]["line"])
         aud = AUDITED_UNSAFE.get(key)
+        if aud is None and key[1] == "impl" and re.match(r"^<vector::subscriber::assert_make_future_send::\w+ as std::marker::(Send|Sync)>$", key[2]):
+            # the marker impls of the concrete payload type declared inside the Send witness: they vouch for nothing generic; what the
+            # witness proves with that payload is judged by R20.5 (instantiates the stored type; bounds cover the computed need)
+            aud = (1, "R20.5")
         if aud is None:
             ctx.violated("R20.1", key[2], "unsafe-%s:%s" % (key[1], key[2]), where,
                          "unaudited unsafe %s in `%s` (%d site(s)): the static argument for C20 is 'safe Rust + every unsafe site discharged', and no obligation is written for this one" % (key[1], key[2], len(sps)),
@@ -298,14 +307,30 @@ def r20_5(ctx):
                 bad.append(f)
     ctx.verdict(not bad, "R20.5", None, "sync-impl:no-&self-access-to-boxed", None, "%d `&self` method(s) of ReusableBoxFuture, none touches `boxed`" % n,
                 "`%s` reads the boxed future through `&self`: with `unsafe impl Sync` two threads could poll a !Sync future" % (bad[0].path if bad else ""))
+    from . import autotrait
+    autotrait.check_unsafe_marker_impls(ctx, "R20.5")
     w = F.fn(IM, "vector::subscriber::assert_make_future_send")
     if w is None:
         ctx.violated("R20.5", None, "send-impl:witness", None, "the in-crate witness `assert_make_future_send` backing `unsafe impl Send for ReusableBoxRecvFuture` is gone")
     else:
         b = w.built
         ok = any(F.local_callee(w, t) is not None and F.local_callee(w, t).name == "assert_send" and contains(b.expr_of_op(t["args"][0]), lambda x: x[0] == "call" and ecall_matches(x, r"make_recv_future$")) for _, t in b.calls())
-        ctx.verdict(ok, "R20.5", w, "send-impl:witness", w.loc(), "assert_send(make_recv_future(receiver)) type-checks for a Send-only payload",
+        ctx.verdict(ok, "R20.5", w, "send-impl:witness", w.loc(), "assert_send(make_recv_future(receiver)) type-checks for the witness payload",
                     "the witness no longer asserts that make_recv_future's future is Send")
+        # the witness must be about the type the wrapper really stores: make_recv_future instantiated with the message type of the
+        # `inner` field (BroadcastMessage<_>), not with the bare element type
+        a = F.adt(IM, "vector::subscriber::ReusableBoxRecvFuture")
+        stored = None
+        if a:
+            for fd in a["variants"][0]["fields"]:
+                m_ = re.search(r"broadcast::Receiver<([\w:]+)<", fd["ty"])
+                if m_:
+                    stored = m_.group(1)
+        inst = [g_ for _, t in b.calls(r"make_recv_future$") for g_ in (t.get("gargs") or [])]
+        if stored and inst:
+            same = all(g_.startswith(stored + "<") for g_ in inst)
+            ctx.verdict(same, "R20.5", w, "send-impl:witness-instantiates-the-stored-type", w.loc(), "the witness instantiates make_recv_future with `%s<_>`, the message type the wrapper stores" % stored,
+                        "the witness instantiates make_recv_future with `%s`, but the wrapper stores a future over `%s<T>`: whatever the witness proves says nothing about the Send-ness of what is actually boxed" % (inst[0], stored))
 
 
 def r20_7(ctx):
